@@ -258,7 +258,7 @@ def main(argv=None):
                 rc, out, wall = sh(["cargo", "kani", "--target-dir", tgt, "-Z", "stubbing", "-Z", "unstable-options", "--no-codegen"],
                                    cwd=ov, check=False, timeout=1800)
                 errs = [l for l in out.splitlines() if l.startswith("error")]
-                print("\n".join(out.splitlines()[-3:]) if rc == 0 else out[out.find("error"):][:6000])
+                print("\n".join(out.splitlines()[-3:]) if rc == 0 else out[max(0, out.find("\nerror")):][:6000])
                 log("compile check rc=%s in %.0fs (%d harnesses in %d files)" % (rc, wall, len(harnesses), len(files)))
                 return 0 if rc == 0 else 2
             finally:
